@@ -23,7 +23,7 @@ def run_driver(chk, test, result_file, env, timeout=1500, race=True):
         if "WARNING: DATA RACE" in out:
             i = out.find("WARNING: DATA RACE")
             block = out[i:i + 3000]
-            in_repo = [l for l in block.splitlines() if "/repo/" in l and "zz_verif" not in l]
+            in_repo = [l for l in block.splitlines() if (vlib.REPO + "/") in l and "zz_verif" not in l]
             if in_repo and not [l for l in block.splitlines()[:12] if "zz_verif" in l]:
                 res.setdefault("violations", None)
                 res["violations"] = (res["violations"] or []) + [dict(sig="data-race", desc="race detector report in the client:\n" + block[:1500])]
